@@ -6,6 +6,7 @@ import vcommon as vc
 
 SPEC = os.path.join(vc.VERIF, "spec", "Params")
 TRACE_CFG = os.path.join(SPEC, "ParamsTrace.cfg")
+AUDIT_CFG = os.path.join(SPEC, "ParamAuditTrace.cfg")
 
 
 def signature(rj):
@@ -101,7 +102,12 @@ def corruption_selftest(ck, trace, wd, mutate):
 
 
 def replay(prop, path):
-    n_ev, rej, st = vc.validate_trace(SPEC, "ParamsTrace", TRACE_CFG, path, parallel=1)
+    head = open(path).read(20000)
+    if '"e":"Audit"' in head or '"e":"Note"' in head:      # a file written by harness/param_audit.h
+        module, cfg = "ParamAuditTrace", AUDIT_CFG
+    else:
+        module, cfg = "ParamsTrace", TRACE_CFG
+    n_ev, rej, st = vc.validate_trace(SPEC, module, cfg, path, parallel=1)
     _clean()
     for rj in rej:
         vc.log("VIOLATION property=%s replay=%s" % (prop, path))
@@ -109,3 +115,143 @@ def replay(prop, path):
     if not rej:
         vc.log("%s replay: %d events accepted" % (prop, n_ev))
     return 1 if rej else 0
+
+
+# ----------------------------------------------------------------------------- audit of internally created parameters
+def audit_signature(driver):
+    def sig(rj):
+        ev = rj.event or {}
+        return {"action": "Audit", "invariant": rj.invariant or "step", "driver": driver, "member": ev.get("m", ev.get("e", "")),
+                "parameter": ev.get("n", ""), "constraint": ev.get("k", "")}
+    return sig
+
+
+def audit_runs(tier):
+    """(label, driver, arguments, extra environment): the other subsystems' drivers in their random modes, at small
+    sizes in quick; what they do is judged by their own checks - here only their Parameter objects are watched."""
+    q = tier == "quick"
+    avoid = []
+    try:
+        known = [k["id"] for k in vc.load_findings().get("known", []) if k.get("property") == "C09" and k.get("id")]
+        avoid = ["--avoid", ",".join(known)] if known else []
+    except Exception:
+        pass
+    budget = {"VERIF_CALL_BUDGET_MS": "20000" if q else "60000"}
+    return [("internal%d" % k, "drv_params_internal", ["--n", 100 if q else 600, "--stream", k], {}) for k in range(4 if q else 8)] + [
+        ("discrete", "drv_discrete", ["--mode", "random", "--n", 100 if q else 1000, "--stream", 0] + avoid, {}),
+        ("optim", "drv_optim", ["--n", 15 if q else 100, "--sub", 0], budget),
+        ("alias", "drv_alias", ["--mode", "random", "--n", 50 if q else 400, "--stream", 0], budget),
+        ("alias-scripted", "drv_alias", ["--mode", "scripted"], budget),
+        ("numderiv", "drv_numderiv", ["--mode", "random", "--n", 50 if q else 500], {}),
+        ("hmm", "drv_hmm", ["--mode", "cache", "--n", 2 if q else 20, "--depth", 3], {}),
+        ("text-dist", "drv_text", ["--mode", "dist", "--rand", 40 if q else 400], {}),
+        ("params", "drv_params", ["--mode", "param", "--n", 60 if q else 500], {}),
+        ("lists", "drv_params", ["--mode", "list", "--n", 60 if q else 500], {}),
+    ]
+
+
+def _flip_audit(lines):
+    """Corrupt one audited value (make it a NaN code) of an event that carries an interval."""
+    for i in range(len(lines) // 2, len(lines)):
+        ev = json.loads(lines[i])
+        if ev.get("e") == "Audit" and ev.get("k") == "interval":
+            ev["v"] = -999999
+            lines[i] = json.dumps(ev, separators=(",", ":"))
+            return i
+    return -1
+
+
+def audit_phase(ck, tier, wd):
+    """Run the drivers with VERIF_PARAM_AUDIT set and validate what every Parameter of those processes looked like
+    after each state-changing member (hook h1) against ParamAuditTrace."""
+    from concurrent.futures import ThreadPoolExecutor
+    q = tier == "quick"
+    runs = audit_runs(tier)
+    vc.build_lib()
+    exes, skipped = {}, {}
+
+    def build(name):
+        try:
+            return name, vc.build_driver(name), None
+        except vc.MachineryError as e:
+            return name, None, str(e)[-400:]
+
+    with ThreadPoolExecutor(max_workers=4) as ex:
+        for name, exe, err in ex.map(build, sorted(set(r[1] for r in runs))):
+            if exe:
+                exes[name] = exe
+            elif name.startswith("drv_params"):
+                raise vc.MachineryError("driver %s does not build: %s" % (name, err))
+            else:
+                skipped[name] = "does not build: " + err      # another property's driver, possibly being edited
+
+    cap = "30000" if q else "250000"
+
+    def one(run):
+        label, drv, args, env = run
+        if drv not in exes:
+            return label, None, {}
+        audit = os.path.join(wd, "audit-%s.ndjson" % label)
+        out = os.path.join(wd, "audit-out-%s.ndjson" % label)
+        for f in (audit, out):
+            if os.path.exists(f):
+                os.remove(f)
+        e = dict(env)
+        e.update({"VERIF_PARAM_AUDIT": audit, "VERIF_PARAM_AUDIT_MAX": cap})
+        try:
+            s = vc.run_driver(exes[drv], args, out, timeout=900 if q else 3000, env=e)
+        except Exception as ex_:
+            return label, None, {"error": str(ex_)[-300:]}
+        if os.path.exists(out):
+            os.remove(out)
+        return label, audit if os.path.exists(audit) and os.path.getsize(audit) > 0 else None, s
+
+    with ThreadPoolExecutor(max_workers=4) as ex:
+        results = list(ex.map(one, runs))
+    # one trace: the files one after the other (each starts with a Reset line; ids restart, the monitor forgets at Reset)
+    joined = os.path.join(wd, "audit-all.ndjson")
+    spans, stats, pos = [], {}, 0
+    with open(joined, "w") as g:
+        for (label, drv, args, env), (_, audit, summ) in zip(runs, results):
+            if not audit:
+                skipped[label] = summ.get("error", "no audit file (driver not built or did not start)") if isinstance(summ, dict) else "no audit file"
+                continue
+            lines = open(audit).read().splitlines()
+            end = [json.loads(l) for l in lines[-1:] if l.startswith('{"e":"End"')]
+            stats[label] = {"driver": drv, "events": len(lines), "callouts": end[0]["calls"] if end else None,
+                            "objects": end[0]["objects"] if end else None,
+                            "audits_with_constraint": sum(1 for l in lines if '"k":"interval"' in l),
+                            "silent_changes_seen_by_sweep": sum(1 for l in lines if '"m":"sweep"' in l),
+                            "driver_ended": "normally" if end else "early (crash or hang inside the library: the other property's matter)"}
+            g.write("\n".join(lines) + "\n")
+            spans.append((pos, pos + len(lines), label, drv))
+            pos += len(lines)
+            if label == "internal0":
+                head = lines[:400]
+                base = os.path.join(wd, "audit-corrupt.ndjson")
+                i = _flip_audit(head)
+                if i >= 0:
+                    open(base, "w").write("\n".join(head) + "\n")
+                    _, rj, _ = vc.validate_trace(SPEC, "ParamAuditTrace", AUDIT_CFG, base, parallel=1)
+                    _clean()
+                    ck.extra["corrupted_audit_rejected"] = bool(rj)
+                    if not rj:
+                        raise vc.MachineryError("audit self-test: a NaN value under an interval constraint was accepted")
+                    os.remove(base)
+            os.remove(audit)
+    n_ev, rej, st = vc.validate_trace(SPEC, "ParamAuditTrace", AUDIT_CFG, joined, timeout=3000)
+    _clean()
+    ck.events += n_ev
+    ck.traces += vc.count_scenarios(joined)
+    by = {}
+    for rj in rej:
+        lab = next((l for a, b, l, d in spans if a <= rj.index < b), "?")
+        by.setdefault(lab, []).append(rj)
+    for lab, rjs in by.items():
+        ck.handle_rejections(rjs, audit_signature(lab), tag="audit-" + lab, cap=8)
+    ck.extra["param_audit"] = stats
+    if skipped:
+        ck.extra["param_audit_skipped"] = skipped
+        vc.log("C01 audit: skipped %s" % skipped)
+    os.remove(joined)
+    return rej
